@@ -1847,21 +1847,84 @@ def c01g(F, R):
         R.ok("store", detail=f"narrow stores ({', '.join(narrow)}) generate no whole-word slot fact")
     else:
         R.bad("store", "gen_memory_value claims `slot = rs2` for every StoreType: after `sb t0, 0(sp)` the slot is claimed to hold the whole of t0 (0x1234) while memory holds one byte of it; `lw` then copies the false value into a register", loc(st))
-    # loads: wherever a register receives the slot's value, the load width must be consulted
-    gr = F.method(PNODE, "gen_reg_value", trait="HasGenValueInfo")
-    m2 = self_match(F, gr, PNODE)
-    ld = dict(arm_table(m2)).get("Load")
-    width_in_gen = ld is not None and any(n.get("k") == "Path" and (n.get("res") or "").startswith(LT + "::") for n in list(walk(ld["body"])) + list(walk(ld.get("guard") or {})))
-    rv = [q for q in F.fns if q.endswith("analysis::available::rule_value_from_stack")]
-    if not rv:
-        raise Anchor("rule_value_from_stack not found")
-    f = F.fn(rv[0])
-    width_in_rule = any(n.get("k") == "Path" and (n.get("res") or "").startswith(LT + "::") for n in walk(f["hir"]["value"])) or \
-        any(n.get("k") == "MethodCall" and "width" in n["name"] for n in walk(f["hir"]["value"], pats=False))
-    if width_in_gen or width_in_rule:
-        R.ok("load", detail="the load width is consulted before a slot's value is copied into a register")
+    # loads: a narrow load must not end up with a description of the word it reads a part of. Two places can give the
+    # destination such a description: gen_reg_value (evaluated per load kind) and the rewrite rules of the pass that insert
+    # a memory description for a `ParserNode::Load` destination (their inserts must be unreachable for a narrow load)
+    from .facts import path_constraints, bool3
+    from .p_parse import parent_map
+    narrow_l = [v for v in F.variants(LT) if v not in ("Lw", "Lwu", "Ld")]
+    probs = []
+    for v in narrow_l:
+        try:
+            r = eval_prop_full(F, "gen_reg_value", "Load", {"inst": v, "rd": "X6", "rs1": "X2", "imm": 0}, trait="HasGenValueInfo")
+        except Unx as ex:
+            probs.append(f"gen_reg_value for {v.lower()}: UNEXTRACTABLE ({ex})")
+            continue
+        if r != "none":
+            probs.append(f"gen_reg_value describes the destination of `{v.lower()}` as the memory word it reads from")
+    where = None
+    for q, g in sorted(F.fns.items()):
+        if "::analysis::available::rule_" not in q or "hir" not in g or "{closure" in q:
+            continue
+        body = g["hir"]["value"]
+        pmq = parent_map(body)
+        for ins in walk(body, pats=False):
+            if ins.get("k") != "MethodCall" or ins["name"] != "insert" or not ins["args"]:
+                continue
+            if not any(c_.get("k") == "Call" and re.search(r"AvailableValue::(MemoryAt\w+|Memory)$", callee_of(c_) or "") for c_ in walk(ins["args"][-1], pats=False)) and \
+                    not (short(q) in ("rule_value_from_stack", "rule_pull_value_from_csr_memory")):
+                continue
+            # only rules that look at loads
+            loads = any(y.get("k") == "MethodCall" and y["name"] == "reads_from_memory" for y in walk(body, pats=False)) or \
+                any((y.get("res") or "").endswith("ParserNode::Load") for y in walk(body))
+            if not loads or short(q) == "rule_value_from_stack":
+                continue
+            for v in narrow_l:
+                def ev3(e, v=v):
+                    """three-valued truth of a condition for a Load node of kind v: `matches!(x.inst.get(), A | B)`, `matches!(node, ParserNode::Load(l) if <guard>)`, !, &&, ||"""
+                    e = peel(e)
+                    while e.get("k") in ("DropTemps", "Use") or (e.get("k") == "Block" and not e.get("stmts") and e.get("expr") is not None):
+                        e = peel(e["e"] if e.get("k") != "Block" else e["expr"])
+                    k_ = e.get("k")
+                    if k_ == "Lit" and e["lit"]["t"] == "bool":
+                        return e["lit"]["v"]
+                    if k_ == "Unary" and e["op"] == "Not":
+                        x = ev3(e["a"])
+                        return None if x is None else not x
+                    if k_ == "Binary" and e["op"] in ("And", "Or"):
+                        x, y = ev3(e["a"]), ev3(e["b"])
+                        if e["op"] == "And":
+                            return False if (x is False or y is False) else (True if (x is True and y is True) else None)
+                        return True if (x is True or y is True) else (False if (x is False and y is False) else None)
+                    if k_ == "Match" and len(e.get("arms", [])) == 2 and isinstance(lit_value(e["arms"][0]["body"]), bool) and isinstance(lit_value(e["arms"][1]["body"]), bool):
+                        a0 = e["arms"][0]
+                        t_, f_ = lit_value(a0["body"]), lit_value(e["arms"][1]["body"])
+                        vs = {short(x) for kk, x in pat_variants(a0["pat"]) if kk == "path" and x and x.startswith(LT + "::")}
+                        if vs:
+                            return t_ if v in vs else f_
+                        if any((y.get("res") or "").endswith("ParserNode::Load") for y in walk(a0["pat"])):
+                            g_ = ev3(a0["guard"]) if a0.get("guard") is not None else True
+                            return None if g_ is None else (t_ if g_ else f_)
+                    return None
+                reachable = True
+                for cnd, want in path_constraints(pmq, ins):
+                    val = ev3(cnd)
+                    if val is not None and val != want:
+                        reachable = False
+                if reachable:
+                    probs.append(f"{short(q)} gives the destination of `{v.lower()}` a description of the whole word")
+                    where = where or loc(ins)
+                    break
+    if not probs:
+        R.ok("load", detail=f"narrow loads ({', '.join(narrow_l)}) get no description of the word they read a part of")
     else:
-        R.bad("load", "rule_value_from_stack copies the slot's word value into the destination of every LoadType: after `sw t0, 0(sp)` with t0 = 0x1234, `lb t1, 0(sp)` is claimed to give 0x1234 (the machine gives 0x34)", f["sp"])
+        R.bad("load", "rule_value_from_stack copies the slot's word value into the destination of every LoadType: after `sw t0, 0(sp)` with t0 = 0x1234, `lb t1, 0(sp)` is claimed to give 0x1234 (the machine gives 0x34) [" + "; ".join(probs[:3]) + "]", where or f_sp_load(F))
+
+
+def f_sp_load(F):
+    rv = [q for q in F.fns if q.endswith("analysis::available::rule_value_from_stack")]
+    return F.fn(rv[0])["sp"] if rv else None
+
 
 @rule("C01", "C01.u.memory-reads-see-the-state-before-the-node", floor=1)
 def c01u(F, R):
@@ -1982,6 +2045,48 @@ def c01v(F, R):
             R.bad(meth, f"`jalr ra, t1, 0` (a call through a register) has {meth} = {sorted(calls_in(v) - {'const_zero_set'}) or 'its own operands only'}: the callee can {what}, so "
                   + ("constants and stack-pointer facts in caller-saved registers survive a call that destroys them (`li a7, 1; jalr ra, t1; ecall` is read as service 1 whatever the callee left in a7)" if meth == "kill_reg"
                      else "an argument set up for the callee (`li a0, 5; jalr ra, t1`) is reported as an unused value"), gp["sp"])
+
+@rule("C01", "C01.w.every-csr-write-updates-or-drops-the-csr-fact", floor=6)
+def c01w(F, R):
+    """the value of a CSR is tracked like a memory cell. Every instruction form that changes the CSR either gives the cell its new value (`csrrw`: rs1, `csrrwi`: the immediate) or makes the old value disappear: `csrrs` / `csrrc` with a source other than x0, `csrrsi` / `csrrci` with a non-zero immediate set or clear bits, so the value that was known is no longer the value. A form that does neither leaves `csrw 5; csrs 2; csrr a7` claiming a7 = 5 where the machine has 7"""
+    from .nodeprops import eval_prop_full, Unx
+    gp = F.fn(F.method(PNODE, "gen_memory_value", trait="HasGenValueInfo"))
+    has_kill = None
+    try:
+        kp = F.method(PNODE, "kill_memory_values", trait="HasGenValueInfo")
+        has_kill = kp
+    except Exception:
+        has_kill = None
+    cases = []
+    for inst in F.variants("riscv_analysis::parser::inst::CsrType"):
+        for rs1 in ("X0", "X6"):
+            writes = inst == "Csrrw" or rs1 != "X0"
+            cases.append(("Csr", {"inst": inst, "rd": "X5", "rs1": rs1, "csr": 64}, f"{inst.lower()} t0, 64, {'zero' if rs1 == 'X0' else 't1'}", writes))
+    for inst in F.variants("riscv_analysis::parser::inst::CsrIType"):
+        for imm in (0, 2):
+            writes = inst == "Csrrwi" or imm != 0
+            cases.append(("CsrI", {"inst": inst, "rd": "X5", "imm": imm, "csr": 64}, f"{inst.lower()} t0, 64, {imm}", writes))
+    for variant, env, text, writes in cases:
+        key = f"{variant}|{text}"
+        try:
+            gen = eval_prop_full(F, "gen_memory_value", variant, env, trait="HasGenValueInfo")
+            kill = eval_prop_full(F, "kill_memory_values", variant, env, trait="HasGenValueInfo") if has_kill else "none"
+        except Unx as ex:
+            R.bad(key + "|unextractable", f"UNEXTRACTABLE: memory effect of `{text}` ({ex})", gp["sp"])
+            continue
+        gens = gen != "none"
+        kills = kill not in ("none", ("call", "new"), ()) and not (isinstance(kill, tuple) and kill[:1] == ("array",) and not kill[1:]) and kill != ("call", "new", ) and str(kill) not in ("('call', 'new')",)
+        if isinstance(kill, tuple) and kill and kill[0] == "call" and kill[1] in ("new", "default"):
+            kills = False
+        if not writes:
+            if kills:
+                R.ok(key, detail=f"`{text}` leaves the CSR alone; dropping its fact anyway is merely imprecise")
+            else:
+                R.ok(key, detail=f"`{text}` does not change the CSR; its fact is kept")
+        elif gens or kills:
+            R.ok(key, detail=f"`{text}` " + ("gives the CSR its new value" if gens else "drops what was known about the CSR"))
+        else:
+            R.bad(key, f"`{text}` changes the CSR but neither generates its new value nor drops the old one: the value known before the instruction is still claimed after it (`csrw t0, uscratch` with t0 = 5, then `csrs t1, uscratch` with t1 = 2, then `csrr a7, uscratch`: a7 = 5 is claimed, the machine has 7 - and the next `ecall` is read as service 5)", gp["sp"])
 
 
 @rule("C01", "C01.h.kill-reaches-values", floor=1)
